@@ -161,6 +161,9 @@ func CoqVal(v *Val) string {
 	case "bool":
 		return "(VLeaf (LBool " + vh.CoqBool(v.B) + "))"
 	case "enum":
+		if v.I < 0 || int(v.I) >= len(ColorNames) {
+			return "VNull" // invalid enum values are outside the model; cases that read one are not sent to it
+		}
 		return "(VLeaf (LStr " + vh.CoqString(ColorNames[v.I]) + "))"
 	case "list":
 		xs := make([]string, len(v.L))
